@@ -9,8 +9,9 @@ Theorem C01_int_token_exact : forall sb t ds,
   pb t = ds -> is_double t = false ->
   classify_number sb t =
     let v := digits_value ds in
-    if v <=? INT64_MAX then (if strict t && negb (v =? 0) && (hd 0 ds =? 48) then NumErr else NumVal (JInt v))
-    else if v <=? UINT64_MAX then (if strict t && (hd 0 ds =? 48) then NumErr else NumVal (JUint v))
+    if strict t && leading_zero ds then NumErr                   (* not RFC 8259: outside the quantifier *)
+    else if v <=? INT64_MAX then NumVal (JInt v)
+    else if v <=? UINT64_MAX then NumVal (JUint v)
     else if strict t then NumErr else NumVal (JUint UINT64_MAX).
 Proof. exact int_token_exact. Qed.
 Print Assumptions C01_int_token_exact.
@@ -20,7 +21,8 @@ Theorem C01_neg_int_token_exact : forall sb t ds,
   pb t = 45 :: ds -> is_double t = false ->
   classify_number sb t =
     let v := digits_value ds in
-    if v <=? 9223372036854775808 then NumVal (JInt (- v))
+    if strict t && leading_zero ds then NumErr
+    else if v <=? 9223372036854775808 then NumVal (JInt (- v))
     else if strict t then NumErr else NumVal (JInt INT64_MIN).
 Proof. exact neg_int_token_exact. Qed.
 Print Assumptions C01_neg_int_token_exact.
